@@ -132,6 +132,11 @@ func goalDelivered(r *rig) bool { return r.c03Goal() == "" }
 
 // ---------------------------------------------------------------- C08
 
+func reverseParts(c rigConf) rigConf {
+	c.ReverseParts = true
+	return c
+}
+
 func deleteDelay(c rigConf, d time.Duration) rigConf {
 	c.DeleteDelay = d
 	return c
@@ -471,6 +476,7 @@ func TestC07Env(t *testing.T) {
 		esc("3 files, 2 threads, one-shot", confTwoThreads(), armC02),
 		esc("2 files, 1 thread, daemon", asDaemon(confOneThread()), armC02),
 		esc("4 files of one group, 2 threads, one-shot", confOneGroup(), armC02),
+		esc("3 files, 2 threads, one-shot, the receiver lists the parts of a partial file in descending order", reverseParts(confTwoThreads()), armC02),
 	}
 	runEnvProperty(t, "C07", "sender crash at every sender action (E-ENV)", scs, d,
 		func(ev vh.EnvEvent, plan []vh.Deviation) []string {
